@@ -535,6 +535,9 @@ def r6(ctx):
         trimmed = sl.has_call(r"trim_ascii$|str>::trim$|str>::trim_matches$") or any(re.search(r"trim_ascii$", x.get("fn", "") or "") for x in sl.consts)
         if not trimmed:
             probs.append("the media type is not trimmed (`application/x-www-form-urlencoded ;charset=..` would not be recognised as a form)")
+        recased = [c_ for c_ in sl.callee_names() if re.search(r"to_(ascii_)?(lower|upper)case$|make_ascii_(lower|upper)case$|replace\w*$", c_)]
+        if recased:
+            probs.append("the media type is re-cased / rewritten (%s) before it is reported: from_request_parts compares it byte for byte, so `Application/X-WWW-Form-Urlencoded` would now be folded" % [c_.split("::")[-1] for c_ in recased])
         if not sl.has_call(r"HeaderMap::<T>::get$"):
             probs.append("the media type does not derive from the header value")
         if not (sl.has_call(r"slice::<impl \[T\]>::split$|str>::split$|slice::<impl \[T\]>::splitn$|str>::splitn$|split_once$|Iterator::position$|str>::find$") ):
